@@ -286,6 +286,16 @@ func genRunCfg(r *Rand) RunCfg {
 	return rc
 }
 
+// scaleHorizon lets PCT's priority change points fall anywhere in a run of about estSteps operations,
+// so that one worker can be parked while hundreds of later records overtake it.
+func scaleHorizon(rcs []RunCfg, estSteps int) {
+	for i := range rcs {
+		if rcs[i].Strat.Kind == simrt.StratPCT && rcs[i].Strat.Horizon < estSteps {
+			rcs[i].Strat.Horizon = estSteps
+		}
+	}
+}
+
 func genRunCfgs(r *Rand, n int) []RunCfg {
 	out := make([]RunCfg, n)
 	for i := range out {
